@@ -407,9 +407,12 @@ def readable(repo, mh, revids):
     return None
 
 
-def check_clean(repo, unreferenced=False):
+def check_clean(repo, unreferenced=False, ignore_ghost_introduced=False):
     """Run the repository consistency check; returns a problem string or None.
-    unreferenced=True also reports text versions no inventory refers to."""
+    unreferenced=True also reports text versions no inventory refers to.
+    ignore_ghost_introduced=True drops 'inconsistent parents' reports about text versions
+    whose introducing revision the repository does not hold: check() then has nothing to
+    derive their parents from and expects none, whatever parents the text really has."""
     try:
         res = repo.check()
     except Exception as e:  # noqa: BLE001
@@ -421,8 +424,13 @@ def check_clean(repo, unreferenced=False):
         probs.append(f"{res.missing_revision_cnt} revisions mentioned but not present")
     if res.missing_parent_links:
         probs.append(f"missing parent links {dict(res.missing_parent_links)}")
-    if res.inconsistent_parents:
-        probs.append(f"inconsistent per-file parents {res.inconsistent_parents[:3]}")
+    inconsistent = list(res.inconsistent_parents)
+    if ignore_ghost_introduced and inconsistent:
+        with repo.lock_read():
+            held = repo.has_revisions({item[0] for item in inconsistent})
+        inconsistent = [item for item in inconsistent if item[0] in held]
+    if inconsistent:
+        probs.append(f"inconsistent per-file parents {inconsistent[:3]}")
     if getattr(res, "revs_with_bad_parents_in_index", None):
         probs.append(f"bad parents in revision index {res.revs_with_bad_parents_in_index[:3]}")
     if res._report_items:
